@@ -269,6 +269,8 @@ def write_replay(pid, seed, v, ops, original_len, tests):
         "violation": v["violation"],
         "original_length": original_len,
         "shrink_replays": tests,
+        # a history found under `python -O` (assert statements removed) is replayed under it
+        "python_optimize": sys.flags.optimize,
     }
     h = hashlib.sha256(engine.jdump([v["cfg"], ops]).encode()).hexdigest()[:10]
     path = os.path.join(d, f"{slug(v['violation']['kind'])}-{h}.json")
@@ -352,6 +354,12 @@ def do_replay(pid, path):
     prop = engine.get_property(pid)
     with open(path) as f:
         body = json.load(f)
+    if body.get("python_optimize") and not sys.flags.optimize:
+        cp = subprocess.run(
+            [sys.executable, "-O", "-B", os.path.join(VERIF, "check"), pid, "--replay", path],
+            check=False,
+        )
+        return cp.returncode
     signal.signal(signal.SIGALRM, _alarm)
     signal.setitimer(signal.ITIMER_REAL, 300)
     try:
@@ -471,6 +479,35 @@ def run_check(pid, tier, seed, nruns=None, workers=None):
         chunk=budget.get("chunk"),
     )
 
+    # configuration dimension: a tenth of the budget again in an interpreter
+    # started with -O (assert statements stripped), where code that does real
+    # work inside an assert silently stops doing it
+    opt_lines, opt_viol, opt_runs = [], 0, 0
+    if not sys.flags.optimize and not os.environ.get("EGSIM_SUBRUN"):
+        opt_runs = max(200, nruns // 10)
+        env = dict(os.environ)
+        env["EGSIM_SUBRUN"] = "1"
+        env["VERIF_EVIDENCE_DIR"] = os.path.join(VERIF, "evidence", "adhoc", "optimized")
+        try:
+            cp = subprocess.run(
+                [sys.executable, "-O", "-B", os.path.join(VERIF, "check"), pid, "--tier", tier,
+                 "--runs", str(opt_runs), "--workers", str(workers)],
+                capture_output=True, text=True, env=env, timeout=budget["wall_cap_s"], check=False,
+            )
+            for ln in cp.stdout.splitlines():
+                if ln.startswith("violation kind="):
+                    opt_lines.append("[python -O] " + ln)
+                elif ln.startswith("VIOLATION property="):
+                    opt_lines.append(ln)
+                    opt_viol += 1
+                elif ln.startswith("KNOWN-FINDING"):
+                    opt_lines.append(ln)
+            if cp.returncode not in (0, 1):
+                merged["errors"].append("python -O sub-run: " + (cp.stderr or cp.stdout)[-600:])
+        except subprocess.TimeoutExpired:
+            merged["errors"].append("python -O sub-run timed out")
+    merged["optimized_runs"] = opt_runs
+
     # determinism spot check: the first runs again, in this tier's own process tree
     rerun = run_parallel(pid, seed, min(nruns, 4), 1, 1, 300, chunk=4)
     mismatch = [
@@ -483,6 +520,8 @@ def run_check(pid, tier, seed, nruns=None, workers=None):
     lines = []
     n_viol = 0
     n_known = 0
+    lines.extend(opt_lines)
+    n_viol += opt_viol
     regress, rerr = run_regressions(pid)
     merged["regress"] = regress
     for r in regress:
@@ -613,6 +652,7 @@ def write_evidence(prop, tier, seed, merged, wall, n_viol, n_known, reported, ha
             ],
         },
         "repo_root": egsim.REPO_ROOT,
+        "runs_repeated_under_python_-O": merged.get("optimized_runs", 0),
         "planned_runs": merged["planned"],
         "pinned_regression_histories_replayed": len(merged.get("regress", [])),
         "pinned_regression_histories_reproducing": sum(
